@@ -129,6 +129,11 @@ def gen_jobs(rng, ntrees, per):
             fixed.append({"k": "rename", "src": H(src), "dst": H(dst), "flags": fl})
     for path, target in (("dst/hl", "src/x"), ("via/hl2", "vs/keep"), ("src/hl3", "dst/sub/x"), ("dst/hl4", "src/../src/x")):
         fixed.append({"k": "create", "path": H(path), "type": "hardlink", "target": H(target)})
+    # create_file with flag words under which the kernel does not create at all (O_PATH makes it drop O_CREAT): whatever comes back
+    # must still be "the file now under that name in the in-root parent" -- in particular for final names '.' and '..'
+    for path in ("..", "src/..", ".", "src/../..", "via/..", "vs/../..", "src/x", "src/newf", "dst/sub"):
+        for fl in (O["PATH"], O["PATH"] | O["DIRECTORY"], O["PATH"] | O["EXCL"], O["PATH"] | O["RDWR"]):
+            fixed.append({"k": "create_file", "path": H(path), "flags": fl, "mode": 0o640})
     for op in fixed:
         jid = add_with_oracles(jobs, jid, t2, op, unhex(op.get("src", op.get("path"))).decode())
     return jobs
@@ -201,6 +206,8 @@ def should_succeed(op, expect, before):
             return t_ is not None and t_ in before and not isdir(t_) and (before[t_][1] & 0o170000) != 0o120000
         return op["type"] in ("file", "dir", "fifo", "symlink", "chr", "blk")
     if k == "create_file":
+        if op.get("flags", 0) & (O["PATH"] | O["DIRECTORY"]):
+            return False        # no creation with these (O_PATH drops O_CREAT; O_CREAT|O_DIRECTORY is refused by the kernel)
         if e not in before:
             return True
         return (before[e][1] & 0o170000) == 0o100000 and not op.get("flags", 0) & O["EXCL"]
